@@ -243,6 +243,12 @@ def execute(case: dict) -> dict:
                 if not p2 and len(r2) > head_idx[k] and r2[head_idx[k]].status == 400 and r2[head_idx[k]] is r2[-1]:
                     resps, problem = r2, p2
                     break
+        if problem and bytes(case.get("bad") or b"").startswith(b"HEAD "):
+            # a HEAD whose *body* is the defect: its head is fine, so the handler may have answered it (without a body)
+            # before the defect was read; the reference reading stops before it and does not list it
+            r2, p2 = refhttp.frame_responses(out, head_request_indexes=head_idx + (len(all_msgs),), closed=st_.closing)
+            if not p2:
+                resps, problem = r2, p2
         if problem:
             raise Violation("malformed-output", f"server output is not a sequence of well-formed responses: {problem}")
         finals = [r for r in resps if r.status >= 200 or not r.complete]
